@@ -1,0 +1,37 @@
+//go:build verif
+
+package entry
+
+import (
+	"sync/atomic"
+
+	"berty.tech/go-ipfs-log/iface"
+)
+
+var verifHookFn atomic.Value
+
+// SetVerifHook installs (or, with nil, removes) the hook called at named points
+// of the fetcher (verification builds only). It may block.
+func SetVerifHook(f func(point string, obj interface{})) {
+	if f == nil {
+		f = func(string, interface{}) {}
+	}
+	verifHookFn.Store(f)
+}
+
+func verifHook(point string, obj interface{}) {
+	if f, ok := verifHookFn.Load().(func(string, interface{})); ok && f != nil {
+		f(point, obj)
+	}
+}
+
+// VerifToBuffer returns the exact bytes that are signed for an entry
+// (ToHashable followed by the private toBuffer).
+func VerifToBuffer(e iface.IPFSLogEntry) ([]byte, error) {
+	h, err := ToHashable(e)
+	if err != nil {
+		return nil, err
+	}
+
+	return toBuffer(h)
+}
